@@ -6,5 +6,6 @@ def table(J):
         "C03": [J("TestC03", checks=(6000, 40000), shards=(2, 16))],
         "C04": [J("TestC04", checks=(6000, 40000), shards=(2, 16))],
         "C16": [J("TestC16")],
+        "C19": [J("TestC19", checks=(20000, 300000), shards=(2, 16))],
         "C18": [J("TestC18", checks=(2000, 40000))],
     }
